@@ -23,7 +23,7 @@ ob("dfg_DFdisetup_anyint", "C20", entry="h_DFdisetup", enforce="DFdisetup", mode
 VH = dict(unit="vhi_u.c", file="hdf/src/vhi.c", overflow=True)
 ob("vhi_VHstoredatam", "C20", entry="h_VHstoredatam", enforce="VHstoredatam", **VH)
 ob("vhi_VHstoredata", "C20", entry="h_VHstoredata", enforce="VHstoredata", **VH)
-# clauses the real code does not meet (defect candidates): n <= 0 must fail; a refused request detaches the vdata it attached
+# clauses the tree as found did not meet (D89, D92, repaired): n < 0 must fail; a refused request detaches the vdata it attached
 ob("vhi_VHstoredatam_negcount", "C20", entry="h_VHstoredatam", enforce="VHstoredatam", defines=["VH_NEGCOUNT"], tier="thorough", **VH)
 ob("vhi_VHstoredatam_detach", "C20", entry="h_VHstoredatam", enforce="VHstoredatam", defines=["VH_DETACH"], tier="thorough", **VH)
 
